@@ -150,8 +150,7 @@ def run_unit(uid, timeout_ms=10000):
                 ok = True
                 break
         covers[name] = ok
-    known = known_attribute_names()
-    harness_only = sorted(k for k in core.TOUCHED_FIELDS if isinstance(k, str) and k not in known)
+    harness_only = sorted({k for owner, k in core.TOUCHED_FIELDS if isinstance(k, str) and k not in known_attribute_names(owner)})
     return {
         "unit": uid,
         "harness_only_fields": harness_only,
@@ -178,24 +177,26 @@ def run_unit(uid, timeout_ms=10000):
 _KNOWN_ATTRS = {}
 
 
-def known_attribute_names():
-    """every identifier that occurs in the repository's source as an attribute name, a class-level name, a parameter / keyword name or an identifier-like
-    string constant (getattr / __slots__): the names an object's representation can consist of"""
+def _names_per_file():
+    """(identifiers per repository file, file of every class name, base-class names of every class)"""
     import ast
     import os
-    root = os.path.join(os.environ.get("VERIF_REPO", "/repo"), "liesel")
+    root = os.environ.get("VERIF_REPO", "/repo")
     if root in _KNOWN_ATTRS:
         return _KNOWN_ATTRS[root]
-    names = set()
-    for d, _dirs, files in os.walk(root):
+    per_file, class_file, class_bases = {}, {}, {}
+    for d, _dirs, files in os.walk(os.path.join(root, "liesel")):
         for fn in files:
             if not fn.endswith(".py"):
                 continue
+            path = os.path.join(d, fn)
+            rel = os.path.relpath(path, root)
             try:
-                with open(os.path.join(d, fn)) as fh:
+                with open(path) as fh:
                     tree = ast.parse(fh.read())
             except (OSError, SyntaxError):
                 continue
+            names = set()
             for n in ast.walk(tree):
                 if isinstance(n, ast.Attribute):
                     names.add(n.attr)
@@ -207,7 +208,38 @@ def known_attribute_names():
                     names.add(n.arg)
                 elif isinstance(n, ast.Constant) and isinstance(n.value, str) and n.value.isidentifier():
                     names.add(n.value)
-                elif isinstance(n, (ast.FunctionDef, ast.ClassDef)):
+                elif isinstance(n, ast.FunctionDef):
                     names.add(n.name)
-    _KNOWN_ATTRS[root] = names
-    return names
+                elif isinstance(n, ast.ClassDef):
+                    names.add(n.name)
+                    class_file.setdefault(n.name, rel)
+                    class_bases[(rel, n.name)] = [ast.unparse(b).split("[")[0].split(".")[-1] for b in n.bases]
+            per_file[rel] = names
+    _KNOWN_ATTRS[root] = (per_file, class_file, class_bases)
+    return _KNOWN_ATTRS[root]
+
+
+def known_attribute_names(owner=None):
+    """the identifiers an object's representation can consist of: every identifier (attribute name, class-level name, parameter / keyword name, identifier-like
+    string constant) in the source FILE of the object's class and in the files of its repository base classes; for objects without a repository class, the
+    identifiers of the whole tree"""
+    per_file, class_file, class_bases = _names_per_file()
+    if owner is None or owner[0] not in per_file:
+        out = set()
+        for v in per_file.values():
+            out |= v
+        return out
+    files, todo, seen = set(), [owner], set()
+    while todo:
+        rel, cname = todo.pop()
+        if (rel, cname) in seen:
+            continue
+        seen.add((rel, cname))
+        files.add(rel)
+        for b in class_bases.get((rel, cname), []):
+            if b in class_file:
+                todo.append((class_file[b], b))
+    out = set()
+    for f in files:
+        out |= per_file[f]
+    return out
